@@ -66,7 +66,7 @@ pub fn pick_flags(rng: &mut Rng) -> Flags {
     let m = rng.chance(1, 4);
     let s = rng.chance(1, 4);
     let uv = rng.weighted(&[4, 3, 3]);
-    Flags { i, m, s, u: uv == 1, v: uv == 2 }
+    Flags { i, m, s, u: uv == 1, v: uv == 2, n: rng.chance(1, 5) }
 }
 
 /// What a stream of programs should contain.
@@ -184,6 +184,19 @@ pub fn haystacks(p: &Program, rng: &mut Rng, budget: usize, n_long: usize, ascii
         wide.retain(|&c| c < 128);
         if wide.is_empty() {
             wide = vec!['a' as u32];
+        }
+    }
+    // long runs of one character (counted loops with minima above the unroll threshold need them)
+    if n_long > 0 {
+        let chars: Vec<char> = alpha.iter().filter_map(|&c| char::from_u32(c)).collect();
+        for (i, &c) in chars.iter().take(3).enumerate() {
+            let other = chars[(i + 1) % chars.len()];
+            for n in [7usize, 10] {
+                let run: String = std::iter::repeat(c).take(n).collect();
+                v.push(run.clone());
+                v.push(format!("{}{}", run, other));
+                v.push(format!("{}{}", other, run));
+            }
         }
     }
     for k in 0..n_long {
